@@ -3,6 +3,7 @@ package h
 import (
 	"encoding/json"
 	"fmt"
+	"github.com/netflix/rend/verifshim/vyield"
 	"strings"
 	"sync"
 	"time"
@@ -38,14 +39,17 @@ type inmemResult struct {
 // RunInmemSeq runs a sequential history against the singleton (reset first) and the model.
 func RunInmemSeq(sc InmemScenario) *inmemResult {
 	res := &inmemResult{}
-	inmem.VerifReset()
-	h, _ := inmem.New()
+	h0, _ := inmem.New()
+	inmem.VerifReset(h0)
 	m := refmodel.New(uint32(time.Now().Unix()))
 	for i, op := range sc.Ops {
 		if op.Kind == "advance" {
 			time.Sleep(time.Duration(op.Sec) * time.Second)
 			continue
 		}
+		// every command through a handler of its own, as if sent on a connection of its own (the
+		// server calls the constructor once per accepted connection)
+		h, _ := inmem.New()
 		m.Now = uint32(time.Now().Unix())
 		e := ExpectH(m, op)
 		r := CallHandler(h, op)
@@ -132,8 +136,8 @@ type inmemConc struct {
 // runInmemConc: init ops sequentially, then the threads under the scheduler at lock granularity.
 func runInmemConc(sc InmemScenario, prefix []int) *inmemConc {
 	res := &inmemConc{}
-	inmem.VerifReset()
 	h, _ := inmem.New()
+	inmem.VerifReset(h)
 	init := map[string]kvState{}
 	m := refmodel.New(uint32(time.Now().Unix()))
 	for _, op := range sc.Ops {
@@ -162,25 +166,35 @@ func runInmemConc(sc InmemScenario, prefix []int) *inmemConc {
 	var mutated string
 	hk.OnReadSection = func(tid int, m interface{}, enter bool) {
 		if enter {
-			snap[tid] = inmem.VerifSnapshot()
+			snap[tid] = inmem.VerifSnapshot(h)
 			return
 		}
-		if now := inmem.VerifSnapshot(); now != snap[tid] && mutated == "" {
+		if now := inmem.VerifSnapshot(h); now != snap[tid] && mutated == "" {
 			mutated = fmt.Sprintf("T%d held only the read lock from contents {%s} to contents {%s}", tid, snap[tid], now)
 		}
 	}
 	var clock int64
 	hist := make([][]HistOp, len(sc.Threads))
 	pending := make([][]HRes, len(sc.Threads))
+	// an access to the shared map is a scheduling point (yields injected into inmem.go) whenever
+	// the locks do not already keep the accessing connection apart from the others
+	vyield.Hook = func(label string) {
+		if t := s.Current(); t >= 0 && hk.Contended(t) {
+			s.Point("mem "+label, nil)
+		}
+	}
+	defer func() { vyield.Hook = nil }()
 	for ti, ops := range sc.Threads {
 		ti, ops := ti, ops
+		// each thread is a connection: it has the handler the constructor gives a new connection
+		hc, _ := inmem.New()
 		s.Go(ti, func() {
 			for oi, op := range ops {
 				clock++
 				call := clock
 				// the returned bytes are looked at only after every thread has finished: a reader
 				// may hold a value while other connections keep working on the key
-				r := CallHandlerDeferred(h, op)
+				r := CallHandlerDeferred(hc, op)
 				clock++
 				pending[ti] = append(pending[ti], r)
 				hist[ti] = append(hist[ti], HistOp{Thread: ti, Idx: oi, Op: op, Call: call, Ret: clock})
@@ -188,6 +202,7 @@ func runInmemConc(sc InmemScenario, prefix []int) *inmemConc {
 		})
 	}
 	s.Run()
+	vyield.Hook = nil
 	for ti := range pending {
 		for oi := range pending[ti] {
 			r := pending[ti][oi]
@@ -221,7 +236,7 @@ func runInmemConc(sc InmemScenario, prefix []int) *inmemConc {
 	for _, x := range all {
 		o = append(o, fmt.Sprintf("T%d.%d=%s", x.Thread, x.Idx, x.Reply.Canon()))
 	}
-	res.Outcome = strings.Join(o, " ") + " | " + inmem.VerifSnapshot()
+	res.Outcome = strings.Join(o, " ") + " | " + inmem.VerifSnapshot(h)
 	pops, bad := toPorcupine(all, init)
 	if bad != "" {
 		add("unexpected-reply", bad)
@@ -348,14 +363,15 @@ func runC17(c *rt.Ctx) {
 // missing keys while others write. It is a sampler; a data race or a runtime fatal error kills
 // the worker, which the driver reports.
 func runC17Race(c *rt.Ctx) {
-	h, _ := inmem.New()
-	inmem.VerifReset()
+	h0, _ := inmem.New()
+	inmem.VerifReset(h0)
 	var wg sync.WaitGroup
 	const readers, writers, rounds = 24, 8, 3000
 	for g := 0; g < readers; g++ {
 		wg.Add(1)
 		go func(g int) {
 			defer wg.Done()
+			h, _ := inmem.New() // a connection of its own
 			for i := 0; i < rounds; i++ {
 				CallHandler(h, wire.Op{Kind: "get", Key: fmt.Sprintf("missing-%d", i%7)})
 				CallHandler(h, wire.Op{Kind: "gete", Key: fmt.Sprintf("k%d", i%5)})
@@ -366,6 +382,7 @@ func runC17Race(c *rt.Ctx) {
 		wg.Add(1)
 		go func(g int) {
 			defer wg.Done()
+			h, _ := inmem.New()
 			for i := 0; i < rounds; i++ {
 				CallHandler(h, wire.Op{Kind: "set", Key: fmt.Sprintf("k%d", i%5), Val: "v", TTL: 0})
 				CallHandler(h, wire.Op{Kind: "delete", Key: fmt.Sprintf("k%d", (i+1)%5)})
